@@ -26,6 +26,9 @@ type c13Label struct {
 
 var c13Labels = []c13Label{
 	{name: "ascii", key: "io.example.attr", cose: true, jws: true},
+	// (neighbours in this list meet in one envelope) names that differ from each other only by letter case are different attributes
+	{name: "upper-case-variant-of-ascii", key: "IO.EXAMPLE.ATTR", cose: true, jws: true},
+	{name: "title-case-variant-of-ascii", key: "Io.Example.Attr", cose: true, jws: true},
 	{name: "non-ascii", key: "ключ/鍵", cose: true, jws: true},
 	{name: "lookalike-scheme-suffix", key: "io.cncf.notary.signingSchemeX", cose: true, jws: true},
 	{name: "lookalike-expiry-prefix", key: "io.cncf.notary.expir", cose: true, jws: true},
